@@ -25,7 +25,7 @@ RULES = {
 
 ASSUME = ['wait() on a stopped child nobody continues is documented as unsupported and skipped',
           'signal delivery latency and descriptors-closed-to-reapable gap <= 20 ms (inside pexpect/ptyprocess 0.1 s grace sleeps)',
-          'subprocess.Popen is stubbed for PopenSpawn (only pexpect\'s own status mapping runs); C09 covers pty children']
+          'subprocess.Popen is stubbed (FakePopen over the simulated process table): for PopenSpawn only pexpect\'s own status mapping in wait() runs']
 
 
 def nontrivial(scn, info):
